@@ -183,6 +183,10 @@ def run_stats_history(rng, out):
     clockrate, events, feats = gen_history(rng)
     desc = {"feats": feats, "n": len(events), "first": [(s, t, round(n, 4)) for s, t, n in events[:5]]}
     clock = Clock(0.0)
+    # the wall clock starts anywhere: at 0, at a present-day epoch, or shortly before clock x rate crosses a multiple of 2^32
+    epoch = rng.choice([0.0, 1.7e9 + rng.randrange(10 ** 7), (rng.randint(1, 40000) * (1 << 32) - rng.randint(1, 30 * clockrate)) / clockrate])
+    desc["epoch"] = epoch
+    events = [(s_, t_, epoch + n_) for s_, t_, n_ in events]
     saved = rr.time
     rr.time = clock
     try:
@@ -251,6 +255,20 @@ def run_report_path(rng, out):
             model.add(seq, ts, rig.clock_now())
             rig.feed_rtp(seq, ts, ssrc)
             out.counters["adds_checked"] += 1
+            if rng.random() < 0.03:
+                # the application looks at getStats() between two reports: same figures, and the next report is not disturbed
+                try:
+                    report = rig.run(rig.receiver.getStats())
+                except Exception as exc:
+                    out.fail("getstats-raises", f"{type(exc).__name__}: {exc}", desc | {"at": i}, exc)
+                    break
+                out.counters["getstats_checked"] += 1
+                for entry in report.values():
+                    if getattr(entry, "type", None) == "inbound-rtp" and entry.ssrc == ssrc:
+                        got = (entry.packetsReceived, entry.packetsLost, entry.jitter)
+                        want = (model.received, model.lost, model.jq4 >> 4)
+                        if got != want:
+                            out.fail("getstats-differs", f"getStats() after packet {i}: (received, lost, jitter) = {got}, RFC 3550 model says {want}", desc | {"at": i})
             if rig.rtcp_task_dead():
                 out.fail("rtcp-task-died", f"the receiver's RTCP task ended after packet {i}: {rig.rtcp_task_error()}", desc | {"at": i})
                 break
